@@ -20,6 +20,26 @@ def rec_op(key, flow_type, corr_tok, start, end, stats, reason=2, tcp="ESTABLISH
                                                 ",".join(str(x) for x in stats))
 
 
+def msg_op(rec_ops, perm=None):
+    """`agg msg`: the records of the given `agg rec` ops (without p<n>; keys of one address family) in ONE data set
+    that travels exporter encoding -> collector decoding -> aggregation; perm = element order of the whole message"""
+    assert rec_ops and all(o.startswith("agg rec ") and len(o.split()) == 10 for o in rec_ops)
+    return "agg msg " + " + ".join(o[len("agg rec "):] for o in rec_ops) + (" p%d" % perm if perm is not None else "")
+
+
+def is_v6(key):
+    return key in (4, 5)
+
+
+def n_records(op):
+    """number of records an op hands to the aggregation"""
+    if op.startswith("agg rec "):
+        return 1
+    if op.startswith("agg msg "):
+        return op.split().count("+") + 1
+    return 0
+
+
 def intra(key, start, end, stats, **kw):
     """a flow that needs no correlation: both pods known (intra-node)"""
     return rec_op(key, 1, corr("podA", "podB"), start, end, stats, **kw)
